@@ -267,3 +267,20 @@ def has_unreachable(body, tail_follows=True):
             if has_unreachable(b, tail_follows=False):
                 return True
     return False
+
+
+def has_repeated_stmt(body):
+    """some statement shape occurs at least twice in the recipe (then building it with shared Expr objects
+    differs from building every occurrence afresh)"""
+    seen = set()
+
+    def walk(b):
+        for s in b:
+            if s in seen:
+                return True
+            seen.add(s)
+            for x in s[1:]:
+                if isinstance(x, tuple) and x and isinstance(x[0], tuple) and walk(x):
+                    return True
+        return False
+    return walk(body)
